@@ -20,6 +20,8 @@ def run(ctx):
         beh += mtblib.generate(ctx, MODE, [(2, 2), (2, 3)], 2, ("a",), sample=800)
         share = 0.3
     n, acc = mtblib.replay(ctx, "C01", MODE, beh, share)
+    tiny = mtblib.tiny_relation(ctx, MODE, [(7, 1, 1)] if ctx.quick else [(7, 1, 1), (11, 1, 1), (13, 1, 1), (7, 1, 2)] + ([(5, 1, 2)] if MODE == "deletion" else []))
+    ctx.cov["tiny_field_tuples"] = tiny
     ctx.samples += [beh[0]["ops"][-1], beh[-1]["ops"][-1]]
     ctx.traces_validated = n
     ctx.evaluations = n
